@@ -34,6 +34,10 @@ fn action_for(k: u64, plain: bool) -> Option<Action> {
         (false, 12) => Action::FilePrintFormatted("a".into(), f_lit_first),
         #[allow(deprecated)]
         (_, 13) => Action::DefaultPrint, // hand-built implicit-print node next to other printers
+        // constant formats (no directive at all): a code generator may special-case them
+        (_, 14) => Action::PrintFormatted(vec![FormatElement::Literal("const line".into()), FormatElement::Special(FormatSpecial::Newline)]),
+        (false, 15) => Action::PrintFormatted(vec![FormatElement::Literal("const|".into())]),
+        (false, 16) => Action::FilePrintFormatted("a".into(), vec![FormatElement::Literal("hdr".into()), FormatElement::Special(FormatSpecial::Newline)]),
         _ => return None,
     })
 }
@@ -43,12 +47,12 @@ fn build_expr(r: &mut Rng, printers: usize, plain: bool) -> Expression {
     let mut have_framing = false;
     for j in 0..printers {
         let a = loop {
-            let k = r.below(14);
+            let k = r.below(17);
             if let Some(a) = action_for(k, plain) {
-                if !plain && j + 1 == printers && !have_framing && (k < 3 || k == 9 || k == 10 || k == 13) {
+                if !plain && j + 1 == printers && !have_framing && (k < 3 || k == 9 || k == 10 || k == 13 || k == 14) {
                     continue; // make sure a framed configuration really is framed
                 }
-                if (3..9).contains(&k) || k >= 11 {
+                if (3..9).contains(&k) || k == 11 || k == 12 || k == 15 || k == 16 {
                     have_framing = true;
                 }
                 break a;
@@ -60,7 +64,7 @@ fn build_expr(r: &mut Rng, printers: usize, plain: bool) -> Expression {
             0 => and(t(Test::Name(format!("t{}*", r.below(2)))), act(a)),
             1 => {
                 let other = loop {
-                    if let Some(b) = action_for(r.below(14), plain) {
+                    if let Some(b) = action_for(r.below(17), plain) {
                         if !matches!(b, Action::Quit) {
                             break b;
                         }
